@@ -1054,7 +1054,10 @@ class ListProxy(BaseProxy):
     'values',
 )
 class DictProxy(BaseProxy):
-    pass
+    def __iter__(self):
+        # Iterate over a snapshot of the keys, like the other bulk accessors.
+        # Without this, iteration falls back to `__getitem__(0)`, `__getitem__(1)`, ...
+        return iter(self.keys())
 
 
 @add_proxy_methods('__len__', '__getitem__', '__setitem__')
